@@ -62,6 +62,11 @@ def pool(rng, scratch):
         open(os.path.join(pd, "lib", "sub.xbb"), "w").write("name Sub\nversion 1.0\n%s({x}) | 4\nRgate(1) | 9\n" % gate)
         open(os.path.join(pd, "main.xbb"), "w").write('name main\nversion 1.0\ninclude "lib/sub.xbb"\nSub(x=0.5) | [0, 1]\n')
         items.append(("relative-include-" + proj, {"path": "main.xbb", "cwd": pd}))
+    # measured-register arguments: structurally equal expressions in different scripts (objects built for one load must
+    # not be handed to another)
+    items.append(("regref-a", {"text": H + "MeasureX | 0\nZgate(2*q0) | 1\n"}))
+    items.append(("regref-b", {"text": H + "MeasureX | 0\nXgate(2*q0) | 2\nDgate(0.3, phi=2*q0) | 3\n"}))
+    items.append(("regref-c", {"text": H + "MeasureX | 0\nMeasureP | 1\nBSgate(q0 + q1, 2*q0) | [2, 3]\n"}))
     items.append(("op-named-like-include", {"text": H + "Sub(x=1) | [0, 1]\nsub(a=1) | [2, 3]\n"}))
     for i in range(10):
         g = Gen(rng, allow_params=(i % 2 == 0))
@@ -102,7 +107,7 @@ def run(tier, seed):
                 for b in items:
                     hists.append([a, b])
         # always: all ordered pairs (and some triples) among the entries that involve files / includes / names of includes
-        special = [it for it in items if it[0].startswith(("include-", "relative-include-", "op-named-like"))]
+        special = [it for it in items if it[0].startswith(("include-", "relative-include-", "op-named-like", "regref-"))]
         for a in special:
             for b in special:
                 hists.append([a, b])
